@@ -12,9 +12,10 @@ DRIVER = os.path.join(BUILD, "driver")
 NSHARD = 16
 
 
-def _run(cmd, path, outpath):
+def _run(cmd, path, outpath, env=None):
     with open(outpath, "w") as out:
-        p = subprocess.run(["bash", "-c", "ulimit -s unlimited 2>/dev/null; exec \"$0\" \"$1\"", cmd, path], stdout=out, stderr=subprocess.PIPE, timeout=3000)
+        p = subprocess.run(["bash", "-c", "ulimit -s unlimited 2>/dev/null; exec \"$0\" \"$1\"", cmd, path], stdout=out, stderr=subprocess.PIPE, timeout=3000,
+                           env=dict(os.environ, **env) if env else None)
     return p.returncode, p.stderr.decode(errors="replace")[-2000:]
 
 
@@ -54,12 +55,14 @@ def run_cases(cases, tag, want_model=True, workdir=None):
             jobs.append(("impl", s, ex.submit(_run, HARNESS, p, p + ".impl")))
             if want_model:
                 jobs.append(("model", s, ex.submit(_run, DRIVER, p, p + ".model")))
+                # the same extracted program evaluating the proved closed forms instead of the statement-level model
+                jobs.append(("model-hl", s, ex.submit(_run, DRIVER, p, p + ".hl", {"GSE_HL": "1"})))
         errs = []
         for kind, s, fut in jobs:
             rc, err = fut.result()
             if rc != 0:
                 errs.append("%s shard %d exited %d: %s" % (kind, s, rc, err))
-    impl, model = {}, ({} if want_model else None)
+    impl, model, hl = {}, ({} if want_model else None), {}
     for s, sh in enumerate(shards):
         if not sh:
             continue
@@ -67,7 +70,8 @@ def run_cases(cases, tag, want_model=True, workdir=None):
         impl.update(split_obs(p + ".impl"))
         if want_model:
             model.update(split_obs(p + ".model"))
-    return impl, model, {"errors": errs, "wall_s": time.time() - t0, "dir": wd}
+            hl.update(split_obs(p + ".hl"))
+    return impl, model, {"errors": errs, "wall_s": time.time() - t0, "dir": wd, "hl": hl}
 
 
 def diff_obs(cases, impl, model):
